@@ -13,7 +13,7 @@ import os
 import random
 import shutil
 
-from lib import batch, pipecases, tlc
+from lib import batch, pipecases, pipeline, tlc
 from lib.core import Ctx
 from props import pipe_common
 from props.c07 import without_ids
@@ -49,6 +49,8 @@ def one_input(args):
     mode = ["all", "best", "joined", "separate", "best"][idx % 5]
     wd = os.path.join(workroot, f"c10-{os.getpid()}-{idx}")
     lines, tags = [], []
+    # every fourth input: query ids beyond 2^53 (consecutive ones: neighbours that a double cannot tell apart)
+    pipeline.QID_BASE = 2 ** 53 if idx % 4 == 3 else 0
     try:
         qids = [q["id"] for q in inp["qrys"]]
         rids = [r["id"] for r in inp["refs"]]
@@ -97,20 +99,24 @@ def one_input(args):
         lines.append({"with": files3(v4), "without": files3(v5)})
         tags.append({"input": idx, "mode": mode, "variant": "-qId/-rId vs restricted files", "qsel": qsel, "rsel": rsel})
         # V6: one query all alone (a plain one and the last one): runs in which no molecule has a second-pass alignment
-        for solo in (qids[0], qids[1], qids[-1]):     # a split molecule (joinable), a plain one, the short contig's
+        solos = [qids[0], qids[1], qids[-1]]     # a split molecule (joinable), a plain one, the short contig's
+        if pipeline.QID_BASE:
+            solos += [qids[2], qids[3]]         # neighbours whose ids 2^53+3 and 2^53+4 are the same double
+        for solo in solos:
             rp6, qp6 = pipecases.write_input(wd, inp, f"v6_{solo}", qsel={solo})
             v6 = pipecases.run_once(wd, rp6, qp6, f"v6_{solo}", mode, extra)
             status[f"alone_{solo}"] = v6["status"]
             lines.append({"with": restrict(f_full, {solo}), "without": restrict(files3(v6), {solo})})
             tags.append({"input": idx, "mode": mode, "variant": "one query alone", "query": solo})
     finally:
+        pipeline.QID_BASE = 0
         shutil.rmtree(wd, ignore_errors=True)
     return {"lines": lines, "tags": tags, "status": status, "idx": idx}
 
 
 def run(ctx: Ctx):
     quick = ctx.tier == "quick"
-    ctx.rule = ("generated inputs (3 references, 9 queries of all kinds) in one of the four modes with one of 8 parameter "
+    ctx.rule = ("generated inputs (3 references, 9 queries of all kinds; every fourth input with consecutive query ids beyond 2^53) in one of the four modes with one of 8 parameter "
                 "vectors; per input 8 runs: full, two queries removed and the rest reordered, rows of both CMAP files "
                 "shuffled, references reordered, -qId/-rId selection, physically restricted files, three single-query runs (one of them the molecule of a contig that is shorter than the other molecules); TLC compares the "
                 "records of the queries present in both runs. non-trivial = distinct (input, variant) comparison in "
